@@ -24,6 +24,8 @@ pub fn inputs() -> Vec<V> {
         pair(sym("k"), V::Int(3)),
         V::List(vec![V::Int(1), V::Int(2), V::Int(3)]),
         V::List(vec![pair(sym("j"), V::Int(9)), V::Int(5), pair(sym("k"), text("ab"))]),
+        // a name bound to unit (found in the input, so the host is not asked, and the value is unit)
+        V::List(vec![pair(sym("k"), V::Unit), pair(sym("j"), V::Int(9))]),
         // concatenations as input (what a partially applied expression runs with): associations nested to the right, and lists
         V::Concat(Box::new(pair(sym("k"), V::Int(3))), Box::new(V::Concat(Box::new(pair(sym("j"), V::Int(9))), Box::new(pair(sym("i"), V::Int(1)))))),
         V::Concat(Box::new(V::List(vec![pair(sym("k"), V::Int(3)), V::Int(5)])), Box::new(V::List(vec![pair(sym("j"), V::List(vec![V::Int(1), V::Int(2)])), V::Int(6)]))),
@@ -387,7 +389,7 @@ impl Check for C01Check {
                 ctx.class("exhaustive");
                 if ast.size() <= 3 {
                     // small programs: every input value (pair, scalar, text, plain and mixed lists too)
-                    self.judge_ast(&ast, &[0, 1, 2, 3, 4, 5, 6, 7, 8], &[Layout::Spaced], ctx);
+                    self.judge_ast(&ast, &[0, 1, 2, 3, 4, 5, 6, 7, 8, 9], &[Layout::Spaced], ctx);
                 } else {
                     self.judge_ast(&ast, &[0, 1], &[Layout::Spaced], ctx);
                 }
